@@ -33,3 +33,10 @@ GROUPS += [
           flags=["--no-malloc-may-fail"], functions=["buildSosInfo", "ILLlpdata_init", "ILLlpdata_free", "ILLmatrix_free"],
           props=["C18", "C17"], assumed=["life/lpdata_sos: static buildSosInfo called through goto-cc --export-file-local-symbols; GMP model variant TOKENS; ILLlp_rows_clear / ILLlp_sinfo_free are empty stubs (members absent)"]),
 ]
+
+GROUPS += [
+    Group("life/set_mpf_zero", "lpnum_setmpf.c", tus=["eg_lpnum.c"], model=MODEL, defines=TOK, dfcc=False, unwind=9, kind="bounded", leak=True, timeout=600,
+          bound="input zero only (the non-zero continued-fraction path is not decided); loop-free on this path",
+          flags=["--no-malloc-may-fail"], functions=["mpq_EGlpNumSet_mpf"], props=["C18", "C17"],
+          assumed=["life/set_mpf_zero: GMP model variant TOKENS, extended to mpf numbers (mpf_init allocates limbs in the real library)"]),
+]
